@@ -25,8 +25,8 @@
 static long cur_case;
 static char ctx[1200];
 
-enum kind { K_OK, K_UNTRUSTED, K_VIA_INTER, K_VIA_UNTRUSTED_INTER, K_EXPIRED, K_NOTYET, K_REVOKED, K_INTER_REVOKED, K_EKU_SERVER_ONLY, K_EKU_CLIENT_ONLY, K_WRONGNAME, K_INTER_EXPIRED, K_UNTRUSTED_LONG_SKI, K_UNTRUSTED_LONG_SUBJECT, K_N };
-static const char *const kind_name[K_N] = { "valid", "untrusted-root", "via-trusted-intermediate", "via-untrusted-intermediate", "expired", "not-yet-valid", "revoked", "intermediate-revoked", "eku-serverAuth-only", "eku-clientAuth-only", "wrong-name", "intermediate-expired", "untrusted-root-3000-byte-key-identifier", "untrusted-root-1300-character-subject" };
+enum kind { K_OK, K_UNTRUSTED, K_VIA_INTER, K_VIA_UNTRUSTED_INTER, K_EXPIRED, K_NOTYET, K_REVOKED, K_INTER_REVOKED, K_EKU_SERVER_ONLY, K_EKU_CLIENT_ONLY, K_WRONGNAME, K_INTER_EXPIRED, K_UNTRUSTED_LONG_SKI, K_UNTRUSTED_LONG_SUBJECT, K_WILDCARD, K_N };
+static const char *const kind_name[K_N] = { "valid", "untrusted-root", "via-trusted-intermediate", "via-untrusted-intermediate", "expired", "not-yet-valid", "revoked", "intermediate-revoked", "eku-serverAuth-only", "eku-clientAuth-only", "wrong-name", "intermediate-expired", "untrusted-root-3000-byte-key-identifier", "untrusted-root-1300-character-subject", "wildcard-name" };
 
 static struct vpki_ent *rootA, *rootB, *interA, *interB, *interR, *interX;
 static struct vpki_ent *leaf[K_N];
@@ -40,7 +40,7 @@ static void make_pki(void)
     vpki_opts_default(&o); o.is_ca = true; rootA = vpki_make("root-A", NULL, &o); rootB = vpki_make("root-B", NULL, &o);
     interA = vpki_make("inter-A", rootA, &o); interB = vpki_make("inter-B", rootB, &o); interR = vpki_make("inter-R", rootA, &o);
     vpki_opts_default(&o); o.is_ca = true; o.not_before_off = -86400 * 30; o.not_after_off = -86400; interX = vpki_make("inter-X", rootA, &o);
-    static const char *good[] = { "peer.verif.test" }, *bad[] = { "other.verif.test" };
+    static const char *good[] = { "peer.verif.test" }, *bad[] = { "other.verif.test" }, *wild[] = { "*.verif.test" };
     for (int k = 0; k < K_N; k++) {
         vpki_opts_default(&o); o.eku = VPKI_EKU_BOTH; o.san_dns = good; o.n_san_dns = 1;
         struct vpki_ent *iss = rootA; const char *cn = "peer.verif.test";
@@ -55,6 +55,7 @@ static void make_pki(void)
         case K_EKU_CLIENT_ONLY: o.eku = VPKI_EKU_CLIENT; break;
         case K_WRONGNAME: o.san_dns = bad; cn = "other.verif.test"; break;
         case K_INTER_EXPIRED: iss = interX; break;
+        case K_WILDCARD: o.san_dns = wild; cn = "*.verif.test"; break;      /* names are compared literally (X509_CHECK_FLAG_NO_WILDCARDS, xcm.h) */
         case K_UNTRUSTED_LONG_SKI: iss = rootB; o.ski_len = 3000; break;            /* what the verification failure is reported about is under the peer's control */
         case K_UNTRUSTED_LONG_SUBJECT: iss = rootB; o.subject_extra_ous = 21; break;
         default: break;
@@ -92,7 +93,7 @@ static bool admits(const struct policy *x, enum kind y, bool y_is_tls_server, ch
     }
     if (y == K_EKU_SERVER_ONLY && !y_is_tls_server) { snprintf(why, cap, "extended key usage serverAuth only, peer acts as TLS client"); return false; }
     if (y == K_EKU_CLIENT_ONLY && y_is_tls_server) { snprintf(why, cap, "extended key usage clientAuth only, peer acts as TLS server"); return false; }
-    if (x->verify_name && (y == K_WRONGNAME || x->explicit_mismatch)) { snprintf(why, cap, x->explicit_mismatch ? "the explicit tls.peer_names (which override the address host name) match no name of the certificate" : "no expected name matches"); return false; }
+    if (x->verify_name && (y == K_WRONGNAME || y == K_WILDCARD || x->explicit_mismatch)) { snprintf(why, cap, x->explicit_mismatch ? "the explicit tls.peer_names (which override the address host name) match no name of the certificate" : "no expected name matches"); return false; }
     snprintf(why, cap, "admissible");
     return true;
 }
@@ -202,7 +203,7 @@ static void one_case(long idx, void *arg)
         if (split) x.p.auth = true;
         struct xcm_attr_map *m = xcm_attr_map_create(); xcm_attr_map_add_bool(m, "xcm.blocking", false); if (c.tp == TP_BTLS) xcm_attr_map_add_str(m, "xcm.service", "bytestream");
         fill_map(m, &x, dir, "inv", 3, false, false);
-        if (c.invalid_kind == 2) xcm_attr_map_del(m, "tls.peer_names");
+        if (c.invalid_kind == 2) { xcm_attr_map_del(m, "tls.peer_names"); if (vrnd_p(&r, 50)) { xcm_attr_map_add_str(m, "tls.peer_names", ""); what = "tls.verify_peer_name=true with an empty tls.peer_names"; vobs("invalid_combinations_with_empty_name_list", 1); } }
         if (c.invalid_kind == 3) xcm_attr_map_add_bin(m, "tls.tc", tc_A, strlen(tc_A));
         if (c.invalid_kind == 4) xcm_attr_map_add_bin(m, "tls.crl", crl_all, strlen(crl_all));
         bool on_server = (split || vrnd_p(&r, 50)) && c.invalid_kind != 2;     /* names are only required of the server side when a connection is accepted */
